@@ -11,9 +11,14 @@ import (
 	stdx509 "crypto/x509"
 	"crypto/x509/pkix"
 	"context"
+	"encoding/base64"
+	"encoding/pem"
 	"fmt"
 	"io"
 	"net/http"
+	"net/http/httptest"
+	"os"
+	"path/filepath"
 	"math/big"
 	stdx509key "crypto/x509"
 	"strings"
@@ -27,7 +32,12 @@ import (
 	"github.com/google/certificate-transparency-go/loglist3"
 	"github.com/google/certificate-transparency-go/trillian/ctfe"
 	ctfeconfigpb "github.com/google/certificate-transparency-go/trillian/ctfe/configpb"
+	"github.com/google/trillian"
+	"github.com/google/trillian/crypto/keys"
+	"github.com/google/trillian/crypto/keys/der"
 	"github.com/google/trillian/crypto/keyspb"
+	"github.com/google/trillian/monitoring"
+	"google.golang.org/protobuf/types/known/anypb"
 	"github.com/google/certificate-transparency-go/x509"
 	"github.com/google/certificate-transparency-go/x509util"
 	tspb "google.golang.org/protobuf/types/known/timestamppb"
@@ -40,6 +50,8 @@ type pki struct {
 	key    *ecdsa.PrivateKey
 	pool   *x509util.PEMCertPool
 	ca     *x509.Certificate // the root as parsed by the fork
+	rootsFile string
+	privAny   *anypb.Any
 	serial int64
 	pubDER []byte
 }
@@ -80,6 +92,54 @@ func (p *pki) leaf(notAfter time.Time) []byte {
 		panic(err)
 	}
 	return der
+}
+
+// postAddChain builds a writable log instance from a LogConfig with the given window (ValidateLogConfig -> SetUpInstance, backend:
+// a fake that queues whatever it is given) and POSTs the chain to its add-chain endpoint; it hands back the HTTP status.
+func (p *pki) postAddChain(t *testing.T, lo, up *tspb.Timestamp, chain [][]byte) (int, string) {
+	if p.rootsFile == "" {
+		p.rootsFile = filepath.Join(t.TempDir(), "roots.pem")
+		if err := os.WriteFile(p.rootsFile, pem.EncodeToMemory(&pem.Block{Type: "CERTIFICATE", Bytes: p.caDER}), 0o600); err != nil {
+			return 0, err.Error()
+		}
+		keyDER, err := stdx509key.MarshalPKCS8PrivateKey(p.key)
+		if err != nil {
+			return 0, err.Error()
+		}
+		if p.privAny, err = anypb.New(&keyspb.PrivateKey{Der: keyDER}); err != nil {
+			return 0, err.Error()
+		}
+		keys.RegisterHandler(&keyspb.PrivateKey{}, der.FromProto)
+	}
+	vcfg, err := ctfe.ValidateLogConfig(&ctfeconfigpb.LogConfig{LogId: 7, Prefix: "shard", RootsPemFile: []string{p.rootsFile}, PrivateKey: p.privAny,
+		NotAfterStart: lo, NotAfterLimit: up})
+	if err != nil {
+		return 0, "ValidateLogConfig: " + err.Error()
+	}
+	fl := &verifkit.FuncLog{QueueLeafF: func(req *trillian.QueueLeafRequest) (*trillian.QueueLeafResponse, error) {
+		return &trillian.QueueLeafResponse{QueuedLeaf: &trillian.QueuedLogLeaf{Leaf: req.Leaf}}, nil
+	}}
+	inst, err := ctfe.SetUpInstance(context.Background(), ctfe.InstanceOptions{Validated: vcfg, Client: fl, Deadline: time.Second,
+		MetricFactory: monitoring.InertMetricFactory{}, RequestLog: new(ctfe.DefaultRequestLog)})
+	if err != nil {
+		return 0, "SetUpInstance: " + err.Error()
+	}
+	h, ok := inst.Handlers["/shard/ct/v1/add-chain"]
+	if !ok {
+		return 0, "no add-chain handler"
+	}
+	var b strings.Builder
+	b.WriteString(`{"chain":[`)
+	for i, c := range chain {
+		if i > 0 {
+			b.WriteString(",")
+		}
+		b.WriteString(`"` + base64.StdEncoding.EncodeToString(c) + `"`)
+	}
+	b.WriteString("]}")
+	w := httptest.NewRecorder()
+	h.ServeHTTP(w, httptest.NewRequest("POST", "http://log.example/shard/ct/v1/add-chain", strings.NewReader(b.String())))
+	return w.Code, ""
 }
 
 // ns renders an instant as decimal nanoseconds since the Unix epoch, exactly (years 1..9999 do not fit int64).
@@ -207,6 +267,18 @@ func TestVerifC18(t *testing.T) {
 		}
 		if a != "x" && a != verifkit.B(want) {
 			out.Fail(key, fmt.Sprintf("log server admits=%s, start<=t<limit is %v", a, want))
+		}
+		// 1b. the log server as a whole: the same window configured on an instance built by SetUpInstance, the chain POSTed
+		//     to its add-chain endpoint (anything in front of ValidateChain that looks at NotAfter must draw the same line)
+		if a != "x" && (it%4 == 0 || (lo != nil && cmpT(*lo, tt) == 0) || (up != nil && cmpT(*up, tt) == 0)) {
+			st, perr := p.postAddChain(t, ts(lo), ts(up), [][]byte{p.leaf(tt), p.caDER})
+			out.Count("class:whole-server-add-chain")
+			switch {
+			case perr != "":
+				out.Fail(key, "add-chain on a SetUpInstance instance: "+perr)
+			case (st == 200) != want || (st != 200 && st != 400):
+				out.Fail(key, fmt.Sprintf("add-chain on the configured instance answers %d, start<=t<limit is %v", st, want))
+			}
 		}
 		// sub-second instant for the other two
 		sub := tt
